@@ -507,7 +507,7 @@ Qed.
 
 (* ------------------------------------------------------------ the API table *)
 
-Lemma safe_warm_protected : set_protected (safe_progs Warm) = true.
+Lemma safe_cur_protected : set_protected (safe_progs Cur) = true.
 Proof. apply set_protected_c_sound. vm_compute. reflexivity. Qed.
 
 Lemma safe_fixed_protected : set_protected (safe_progs Fixed) = true.
@@ -551,11 +551,11 @@ Proof.
   apply prog_of_safe. apply H. exact Hn.
 Qed.
 
-Lemma api_warm_race_free_lemma :
+Lemma api_race_free_lemma :
   forall (names : list string) (f : field) (sched : list nat),
     (forall n, In n names -> is_culprit n = false) ->
-    race_on f (exec (init (map (prog_of Warm) names)) sched) = false.
-Proof. exact (api_race_free_gen Warm safe_warm_protected). Qed.
+    race_on f (exec (init (map (prog_of Cur) names)) sched) = false.
+Proof. exact (api_race_free_gen Cur safe_cur_protected). Qed.
 
 Lemma api_fixed_race_free_lemma :
   forall (names : list string) (f : field) (sched : list nat),
@@ -586,14 +586,14 @@ Proof.
   - apply well_locked_other_field; exact I.
 Qed.
 
-Lemma guard_discipline_lemma : forall v, v <> Cold ->
+Lemma guard_discipline_lemma : forall v, v <> Legacy ->
   forallb (fun e => breaks_discipline (e_name e) || well_locked_all guards (e_prog e))
           (api_table v) = true.
 Proof. destruct v; intro H; [exfalso; apply H; reflexivity | |]; vm_compute; reflexivity. Qed.
 
 Lemma api_guarded_race_free_lemma :
   forall (v : variant) (es : list entry) (f : field) (sched : list nat),
-    v <> Cold ->
+    v <> Legacy ->
     (forall e, In e es -> In e (api_table v) /\ breaks_discipline (e_name e) = false) ->
     race_on f (exec (init (map e_prog es)) sched) = false.
 Proof.
@@ -611,32 +611,50 @@ Local Open Scope string_scope.
 
 Definition two (v : variant) (a b : string) : config := init [prog_of v a; prog_of v b].
 
-(* StateNames() || StateNames(), export copy not built yet: both pass the nil
-   check under the shared lock and both write the copy *)
-Lemma statenames_refuted_lemma :
-  exists sched, race_on stateNamesExport (exec (two Cold "StateNames" "StateNames") sched) = true.
-Proof. exists [0; 0; 0; 1; 1; 1]. vm_compute. reflexivity. Qed.
-
-(* the same two calls once the copy exists: no schedule races *)
-Lemma statenames_warm_lemma :
-  forall f sched, race_on f (exec (two Warm "StateNames" "StateNames") sched) = false.
+(* any number of StateNames() calls, first-time or not: the copy is published
+   through an atomic pointer *)
+Lemma statenames_race_free_lemma :
+  forall (n : nat) (f : field) (sched : list nat),
+    race_on f (exec (init (repeat (prog_of Cur "StateNames") n)) sched) = false.
 Proof.
-  intros f sched. apply (api_warm_race_free_lemma ["StateNames"; "StateNames"]).
-  intros n [H|[H|[]]]; subst n; reflexivity.
+  intros n f sched.
+  replace (repeat (prog_of Cur "StateNames") n)
+    with (map (prog_of Cur) (repeat "StateNames" n)).
+  - apply api_race_free_lemma. intros m Hm.
+    apply repeat_spec in Hm. subst m. reflexivity.
+  - induction n as [|n IH]; simpl; [reflexivity | rewrite IH; reflexivity].
+Qed.
+
+(* the NetworkMachine entries are all in the safe set now *)
+Lemma netmach_race_free_lemma :
+  forall (names : list string) (f : field) (sched : list nat),
+    (forall n, In n names -> String.prefix "NM." n = true) ->
+    race_on f (exec (init (map (prog_of Cur) names)) sched) = false.
+Proof.
+  intros names f sched H. apply api_race_free_lemma. intros n Hn.
+  specialize (H n Hn). unfold is_culprit, is_culprit_v. simpl.
+  destruct n as [|c n]; [reflexivity|].
+  destruct (String.eqb (String c n) "VerifyStates") eqn:E1.
+  { apply String.eqb_eq in E1. rewrite E1 in H. discriminate H. }
+  destruct (String.eqb (String c n) "SetSchema") eqn:E2.
+  { apply String.eqb_eq in E2. rewrite E2 in H. discriminate H. }
+  destruct (String.eqb (String c n) "Import") eqn:E3.
+  { apply String.eqb_eq in E3. rewrite E3 in H. discriminate H. }
+  reflexivity.
 Qed.
 
 Lemma verifystates_refuted_lemma :
-  (exists sched, race_on stateNames (exec (two Warm "VerifyStates" "Is") sched) = true) /\
-  (exists sched, race_on stateNamesExport (exec (two Warm "VerifyStates" "StateNames") sched) = true).
+  (exists sched, race_on stateNames (exec (two Cur "VerifyStates" "Is") sched) = true) /\
+  (exists sched, race_on stateNames (exec (two Cur "VerifyStates" "StateNames") sched) = true).
 Proof.
   split.
   - exists [0; 0; 0; 0; 1; 1; 1; 1]. vm_compute. reflexivity.
-  - exists [0; 0; 0; 0; 0; 1]. vm_compute. reflexivity.
+  - exists [0; 0; 0; 0; 1; 1]. vm_compute. reflexivity.
 Qed.
 
 Lemma import_refuted_lemma :
-  (exists sched, race_on activeStates (exec (two Warm "Import" "Is") sched) = true) /\
-  (exists sched, race_on clock (exec (two Warm "Import" "Tick") sched) = true).
+  (exists sched, race_on activeStates (exec (two Cur "Import" "Is") sched) = true) /\
+  (exists sched, race_on clock (exec (two Cur "Import" "Tick") sched) = true).
 Proof.
   split.
   - exists [0; 0; 0; 0; 1; 1; 1]. vm_compute. reflexivity.
@@ -644,19 +662,26 @@ Proof.
 Qed.
 
 Lemma setschema_refuted_lemma :
-  (exists sched, race_on stateNames (exec (two Warm "SetSchema" "Has") sched) = true) /\
-  (exists sched, race_on stateNames (exec (two Warm "SetSchema" "Is") sched) = true).
+  (exists sched, race_on stateNames (exec (two Cur "SetSchema" "Has") sched) = true) /\
+  (exists sched, race_on stateNames (exec (two Cur "SetSchema" "Is") sched) = true).
 Proof.
   split.
   - exists [0; 0; 0; 0; 0; 0; 0; 1]. vm_compute. reflexivity.
   - exists [0; 0; 0; 0; 0; 0; 0; 1; 1; 1; 1]. vm_compute. reflexivity.
 Qed.
 
-Lemma netmach_refuted_lemma :
-  (exists sched, race_on nmTracers (exec (two Warm "NM.TracerBind" "NM.Tracers") sched) = true) /\
-  (exists sched, race_on nmLogEntries (exec (two Warm "NM.UpdateClock" "NM.Log") sched) = true).
+(* what the three repairs removed: the same pairs on the table of the code
+   before f998d9b / f656cf0 / 031458c *)
+Lemma legacy_races_lemma :
+  (exists sched, race_on stateNamesExport
+     (exec (two Legacy "StateNames" "StateNames") sched) = true) /\
+  (exists sched, race_on nmTracers
+     (exec (two Legacy "NM.TracerBind" "NM.Tracers") sched) = true) /\
+  (exists sched, race_on nmLogEntries
+     (exec (two Legacy "NM.UpdateClock" "NM.Log") sched) = true).
 Proof.
-  split.
+  split; [|split].
+  - exists [0; 0; 0; 1; 1; 1]. vm_compute. reflexivity.
   - exists [0; 0; 1]. vm_compute. reflexivity.
   - exists [0; 0; 0; 0; 0; 0; 0; 0; 0; 0; 0; 0; 1; 1; 1; 1; 1]. vm_compute. reflexivity.
 Qed.
